@@ -105,7 +105,7 @@ impl<'a> Tape<'a> {
         }
     }
     pub fn short_string(&mut self) -> String {
-        const POOL: [&str; 8] = ["", "a", "bg", "ü", "名", "dup", "L", "😀"];
+        const POOL: [&str; 11] = ["", "a", "bg", "ü", "名", "dup", "L", "😀", "Überlange-Ebenen-Nämen mit Umlauten ÄÖÜß", "レイヤー名前テスト・長い名前・レイヤー", "0123456789012345678901😀😀 tail"];
         self.pick(&POOL).to_string()
     }
     pub fn user_data(&mut self) -> UserData {
@@ -467,6 +467,10 @@ pub fn build_sprite(t: &mut Tape, c: &GenCfg) -> Sprite {
             flags |= LF_BACKGROUND;
         }
         flags |= (t.raw() as u16) & 0x76 & if t.chance(1, 2) { 0xFFFF } else { 0x02 };
+        // bits the format has not assigned yet (a reader must ignore them; only the 7 defined bits are ever compared)
+        if t.chance(1, 5) {
+            flags |= (t.raw() as u16) & 0xFF80;
+        }
         let blend = if c.blend_modes && t.chance(1, 2) { t.below(19) as u16 } else { 0 };
         s.layers.push(Layer {
             flags,
@@ -638,6 +642,7 @@ pub fn build_plan(t: &mut Tape) -> Plan {
         legacy_beside_new: t.chance(1, 3),
         shuffle: t.chance(1, 2),
         color_profile: t.pick(&[0u8, 0, 1, 2]),
+        pad_to: if t.chance(1, 90) { (t.below(3), t.pick(&[65535u32, 65534, 65536, 65535])) } else { (0, 0) },
     }
 }
 
